@@ -27,6 +27,7 @@ TBegin == /\ l' = l + 1 /\ stats' = Bump("scenarios") /\ UNCHANGED bad
 
 TOp ==
   LET x == E.x IN
+  IF E.r = "nohandle" THEN Reject("C11-handles", <<E.op, x, nh>>) ELSE
   CASE E.op = "Open" ->
          IF ~E.same THEN Reject("C10-concurrent-open-different-connections", <<x>>)
          ELSE IF E.h # OpenResult(x) THEN Reject("C11-reopen-handle", <<x, E.h, OpenResult(x)>>) ELSE Go(Open(x))
